@@ -45,19 +45,29 @@ var procOf sync.Map // *int (address of a stack variable per goroutine) is not a
 
 type schedRun struct {
 	procs   []string
-	events  [][2]string
+	events  [][3]string
 	pattern string
 }
 
 // runSchedule executes one cache schedule: every proc validates a string against the same
 // fresh pattern; the gates make lookups and stores happen in the scheduled order.
-func runSchedule(s [][2]string, n int, res *rep.Result, id int) {
+func runSchedule(s [][3]string, n int, res *rep.Result, id int) {
 	procs := map[string]bool{}
 	for _, e := range s {
 		procs[e[0]] = true
 	}
 	pattern := fmt.Sprintf("v%d-%d-[a-z]+", id, n)
-	yt := &yang.YangType{Kind: yang.Ystring, Pattern: []string{pattern}}
+	// the flavour each proc uses: RE2 (pattern) or POSIX (posix-pattern); the two have a cache each
+	flavour := map[string]string{}
+	for _, e := range s {
+		flavour[e[0]] = e[2]
+	}
+	ytOf := func(p string) *yang.YangType {
+		if flavour[p] == "posix" {
+			return &yang.YangType{Kind: yang.Ystring, POSIXPattern: []string{"^" + pattern + "$"}}
+		}
+		return &yang.YangType{Kind: yang.Ystring, Pattern: []string{pattern}}
+	}
 	value := fmt.Sprintf("v%d-%d-abc", id, n)
 	type gate struct{ reached, release chan string }
 	gates := map[string]*gate{}
@@ -90,7 +100,7 @@ func runSchedule(s [][2]string, n int, res *rep.Result, id int) {
 		p := p
 		go func() {
 			<-start[p]
-			results[p] <- ytypes.ValidateStringRestrictions(yt, value)
+			results[p] <- ytypes.ValidateStringRestrictions(ytOf(p), value)
 		}()
 	}
 	// which procs miss according to the model: those with a "lock" event
@@ -163,6 +173,44 @@ func runSchedule(s [][2]string, n int, res *rep.Result, id int) {
 	}
 	res.Eval(1)
 	res.Count("schedules", 1)
+}
+
+// cacheStress: goroutines validate strings against fresh patterns of both flavours at the same
+// time (cold caches, so lookups and stores of the same map overlap unless the mutexes exclude
+// them); run under the race detector, every call must succeed.
+func cacheStress(seed int64, rounds int, res *rep.Result) {
+	rng := rand.New(rand.NewSource(seed))
+	for round := 0; round < rounds*4; round++ {
+		runtime.GOMAXPROCS(2 + rng.Intn(15))
+		n := 4 + rng.Intn(12)
+		var wg sync.WaitGroup
+		errs := make([]error, n)
+		for i := 0; i < n; i++ {
+			wg.Add(1)
+			go func(i int) {
+				defer wg.Done()
+				for k := 0; k < 20; k++ {
+					pat := fmt.Sprintf("s%d-%d-%d-[a-z]+", seed, round, k/2) // pairs of goroutines share a fresh pattern
+					yt := &yang.YangType{Kind: yang.Ystring, Pattern: []string{pat}}
+					if (i+k)%2 == 0 {
+						yt = &yang.YangType{Kind: yang.Ystring, POSIXPattern: []string{"^" + pat + "$"}}
+					}
+					if err := ytypes.ValidateStringRestrictions(yt, fmt.Sprintf("s%d-%d-%d-abc", seed, round, k/2)); err != nil {
+						errs[i] = err
+					}
+				}
+			}(i)
+		}
+		wg.Wait()
+		for _, err := range errs {
+			if err != nil {
+				res.Violate("C21", map[string]string{"conjunct": "cache-result", "scenario": "cache-stress"}, fmt.Sprintf("concurrent validation against a fresh pattern failed: %v", err), nil)
+			}
+		}
+		res.Eval(n)
+		res.Count("cache_stress_goroutines", n)
+	}
+	runtime.GOMAXPROCS(runtime.NumCPU())
 }
 
 // stress runs the readers and writers scenarios with real goroutines and compares every result
@@ -294,9 +342,34 @@ func stress(pkg *reg.Pkg, cp *conc.Corpus, seed int64, rounds int, res *rep.Resu
 				req.Update = append(req.Update, &gpb.Update{Path: &gpb.Path{Elem: append(append([]*gpb.PathElem{}, nn.GetPrefix().GetElem()...), u.Path.Elem...)}, Val: u.Val})
 			}
 		}
+		// a JSON document addressed to a list entry (SetNode and SetRequest forms)
+		var entryPath *gpb.Path
+		var entryVal *gpb.TypedValue
+		if ep, err := x.GNMIPath([]string{"l", "K1"}, pkg); err == nil {
+			if nodes, err := ytypes.GetNode(sch, root, ep); err == nil && len(nodes) == 1 {
+				if gs, ok := nodes[0].Data.(ygot.GoStruct); ok {
+					if ej, err := ygot.Marshal7951(gs, cfg); err == nil {
+						entryPath, entryVal = ep, &gpb.TypedValue{Value: &gpb.TypedValue_JsonIetfVal{JsonIetfVal: ej}}
+						req.Update = append(req.Update, &gpb.Update{Path: ep, Val: entryVal})
+					}
+				}
+			}
+		}
+		if entryPath != nil {
+			res.Count("writer_rounds_with_entry_json", 1)
+		}
 		reqRef := proto.Clone(req)
 		write := func() string {
 			r1, r2, r3 := pkg.NewRoot(), pkg.NewRoot(), pkg.NewRoot()
+			if entryPath != nil {
+				r4 := pkg.NewRoot()
+				e4 := ytypes.SetNode(st[reflectName(r4)], r4, entryPath, entryVal, &ytypes.InitMissingElements{})
+				defer func() { _ = e4 }()
+				if e4 != nil {
+					res.Count("entry_json_setnode_errors", 1)
+					res.DriftNote("SetNode of a list entry's own JSON failed: " + e4.Error())
+				}
+			}
 			e1 := pkg.Unmarshal(js, r1)
 			e2 := ytypes.SetNode(st[reflectName(r2)], r2, gp, tv, &ytypes.InitMissingElements{})
 			e3 := ytypes.UnmarshalSetRequest(&ytypes.Schema{Root: r3, SchemaTree: st}, req)
@@ -361,7 +434,7 @@ func concurCmd(args []string) *rep.Result {
 			return res
 		}
 		for i, l := range lines {
-			var s [][2]string
+			var s [][3]string
 			if err := json.Unmarshal([]byte(l), &s); err != nil {
 				res.InfraErr("schedule: %v", err)
 				return res
@@ -372,6 +445,7 @@ func concurCmd(args []string) *rep.Result {
 			}
 		}
 	}
+	cacheStress(c.seed, *rounds, res)
 	for _, pkg := range c.packages() {
 		stress(pkg, cp, c.seed, *rounds, res)
 	}
